@@ -94,6 +94,68 @@ def _random_sequences(ctx, family, n_datasets, per_dataset, maxlen):
     _validate_traces(ctx, recorded, "random_" + family)
 
 
+def _one_command(job):
+    """one command line in a fresh interpreter with the given hash seed -> (status, output)"""
+    import os
+    import subprocess
+    import sys
+    from harness import core
+    argv, seed = job
+    env = dict(os.environ, PYTHONPATH=core.REPO, MPLBACKEND="Agg")
+    env.pop("PYTHONHASHSEED", None)
+    if seed is not None:
+        env["PYTHONHASHSEED"] = str(seed)
+    p = subprocess.run([sys.executable, "-c", "import sys, verif.driver; verif.driver.run(sys.argv)"] + list(argv),
+                       env=env, stdout=subprocess.PIPE, stderr=subprocess.STDOUT, timeout=300)
+    return p.returncode, p.stdout.decode("utf-8", "replace")
+
+
+def _repeat_commands(ctx):
+    """repeating the same command on the same files yields identical output: every command is run in several fresh interpreters (string hashing
+    seeded differently, as it is from one run of a program to the next) and must print the same"""
+    import os
+    from harness import materialize as mat
+    from harness.checks import c19
+    wd = par.workdir()
+    full = c19.dataset("full", 0)
+    other = c19.dataset("full", 1)
+    paths = {}
+    for name, d in (("a", full), ("b", other)):
+        paths[name] = os.path.join(wd, "rep_%s.txt" % name)
+        mat.write_text(paths[name], d, row_order="shuffle", rng=random.Random(5))
+        paths[name + "_noid"] = os.path.join(wd, "rep_%s_noid.txt" % name)
+        lines = open(mat.write_text(os.path.join(wd, "tmp_rep.txt"), d)).read().split("\n")
+        head = next(l for l in lines if l.strip() and not l.startswith("#")).split()
+        k = head.index("location") if "location" in head else head.index("id")
+        open(paths[name + "_noid"], "w").write("\n".join(l if l.startswith("#") else " ".join(c for j, c in enumerate(l.split()) if j != k)
+                                                          for l in lines if l.strip()) + "\n")
+        paths[name + "_nc"] = os.path.join(wd, "rep_%s.nc" % name)
+        mat.write_netcdf(paths[name + "_nc"], d)
+    commands = []
+    for suffix in ("", "_noid", "_nc"):
+        files = [paths["a" + suffix], paths["b" + suffix]]
+        for opts in (["-m", "mae", "-x", "location", "-type", "csv"], ["-m", "mae", "-x", "leadtime", "-type", "text"],
+                     ["-m", "ets", "-r", "2", "-x", "location", "-type", "csv"], ["-m", "obsfcst", "-x", "time", "-type", "csv"],
+                     ["-m", "corr", "-x", "lat", "-type", "text"]):
+            commands.append(files + opts)
+    seeds = [0, 1, 2, 3] if ctx.tier == "quick" else [0, 1, 2, 3, 4, 5, None, None]
+    jobs = [(argv, s) for argv in commands for s in seeds]
+    results = par.pmap(_one_command, jobs, chunk=1)
+    k = 0
+    for argv in commands:
+        outs = results[k:k + len(seeds)]
+        k += len(seeds)
+        ctx.evaluations += len(seeds)
+        ctx.traces += 1
+        if any(o != outs[0] for o in outs[1:]):
+            j = next(i for i, o in enumerate(outs) if o != outs[0])
+            ctx.diverge("repeat:command-output", {"kind": "repeat", "argv": [os.path.basename(a) if os.path.exists(a) else a for a in argv]},
+                        detail="`verif %s` printed different output in two fresh interpreters (hash seeds %r and %r): %r versus %r"
+                        % (" ".join(os.path.basename(a) if os.path.exists(a) else a for a in argv), seeds[0], seeds[j], outs[0][1][:160], outs[j][1][:160]))
+        elif outs[0][0] != 0:
+            ctx.diverge("repeat:command-failed", {"kind": "repeat", "argv": argv}, detail="`verif %s` failed: %s" % (" ".join(argv[2:]), outs[0][1][-200:]))
+
+
 def _unbounded(ctx, cfg, expect_states):
     """histories of ANY length: under VIEW CacheView (object ids are names) the state graph of DataImpl.tla is finite -- every subset
     of the 12-request core menu is a cache content -- and TLC visits all of it: CacheCoherent in every state, CacheGrows /
@@ -126,6 +188,7 @@ def run(ctx):
         # ensemble members as fields; before every request a quantile that has to be derived from the members is asked for as well
         _replay_cfg(ctx, "MC_DataImpl_C18EmitEns", limit=1500, perturb="quantile-from-ensemble")
         _random_sequences(ctx, "C18Mix", 32, 10, 8)
+        _repeat_commands(ctx)
     else:
         res = tlc.run("MC_DataImpl", "MC_DataImpl_C18QuickFixed", tag=ctx.pid + "_model", timeout_s=900, require_emit=False)
         ctx.add_tlc("MC_DataImpl_C18QuickFixed (all sequences <= 3, 16 datasets)", res, {"MaxLen": 3})
@@ -143,6 +206,7 @@ def run(ctx):
         _replay_cfg(ctx, "MC_DataImpl_C18EmitEns", perturb="quantile-from-ensemble")
         _random_sequences(ctx, "C18Mix", 32, 60, 12)
         _random_sequences(ctx, "C18Quick", 16, 60, 12)
+        _repeat_commands(ctx)
         ctx.exhaustive = True
     par.clean_workdirs()
 
